@@ -100,8 +100,13 @@ def run_drive(binary, args, timeout=3600, env=None, allow_fail=False):
     return p
 
 
-def java_cmd(xmx="3g", gc="-XX:+UseSerialGC"):
-    return ["java", gc, "-Xmx" + xmx, "-Xss256m", "-cp", TLAJAR + ":" + CMJAR, "tlc2.TLC"]
+def java_cmd(xmx="3g", gc="-XX:+UseSerialGC", short=True):
+    """short=True: flags for the many short single-threaded trace-validation JVMs that run side by side
+    (measured here: C2 compiler threads and a large young generation make 16 parallel JVMs 5x slower)."""
+    cmd = ["java", gc, "-Xmx" + xmx, "-Xss64m"]
+    if short:
+        cmd += ["-XX:TieredStopAtLevel=1", "-Xmn48m", "-Xms256m"]
+    return cmd + ["-cp", TLAJAR + ":" + CMJAR, "tlc2.TLC"]
 
 
 def write_cfg(path, spec, invariants, extra=""):
@@ -181,30 +186,35 @@ def validate_many(work, files, invariants, module="TraceArt", jobs=None):
         return list(ex.map(lambda f: validate_trace(work, f, invariants, module), files))
 
 
-def split_trace(path, max_lines):
-    """Split a single-tree trace at segment boundaries ('clear' lines); every part
-    starts with the 'new' line. Returns the part files."""
-    with open(path) as f:
-        lines = f.readlines()
-    if len(lines) <= max_lines:
+def split_trace(path, max_bytes):
+    """Split a single-tree trace at segment boundaries ('clear' lines) into parts of
+    about max_bytes; every part starts with the 'new' line. Returns the part files."""
+    if os.path.getsize(path) <= max_bytes:
         return [path]
-    head = lines[0]
-    assert head.startswith('{"op":"new"'), "trace must start with a new line"
-    parts, cur = [], [head]
-    for ln in lines[1:]:
-        if ln.startswith('{"op":"clear"') and len(cur) >= max_lines:
-            parts.append(cur)
-            # a part starts with 'new' (fresh tree): the clear line is redundant
-            cur = [head]
-            continue
-        cur.append(ln)
-    parts.append(cur)
     out = []
-    for i, p in enumerate(parts):
-        fn = "%s.p%d" % (path, i)
-        with open(fn, "w") as f:
-            f.writelines(p)
-        out.append(fn)
+    part = None
+    size = 0
+    n = 0
+    with open(path) as f:
+        head = f.readline()
+        assert head.startswith('{"op":"new"'), "trace must start with a new line"
+        for ln in f:
+            if part is None or (size >= max_bytes and ln.startswith('{"op":"clear"')):
+                if part:
+                    part.close()
+                fn = "%s.p%d" % (path, n)
+                n += 1
+                out.append(fn)
+                part = open(fn, "w")
+                part.write(head)
+                size = 0
+                if ln.startswith('{"op":"clear"'):
+                    continue  # a part starts with 'new' (fresh tree): the clear line is redundant
+            part.write(ln)
+            size += len(ln)
+    if part:
+        part.close()
+    os.remove(path)
     return out
 
 
@@ -271,6 +281,57 @@ def d2_signature(segment_lines):
             if len(b) > len(a) and b.startswith(a) and b[len(a)] == 0:
                 return True
     return False
+
+
+def split_d2(trace_file):
+    """Separate what lies inside the known finding D2 from the rest of a byte-string trace.
+    Returns (clean_file, tainted_file or None): clean holds every segment cut just before the
+    Insert that completes a pair k, k||0x00||s; tainted holds the complete segments that do so."""
+    with open(trace_file) as f:
+        lines = f.readlines()
+    head = json.loads(lines[0])
+    if head.get("op") != "new" or head.get("kind") != "alpha":
+        return trace_file, None
+    okeys = [bytes(x["o"]) for x in head["u"]]
+
+    def pair(a, b):
+        return len(b) > len(a) and b.startswith(a) and b[len(a)] == 0
+
+    clean, tainted = [lines[0]], [lines[0]]
+    seg, ins, cut = [], set(), None
+    any_taint = False
+
+    def flush():
+        nonlocal seg, ins, cut, any_taint
+        if cut is None:
+            clean.extend(seg)
+        else:
+            clean.extend(seg[:cut])
+            tainted.extend(seg)
+            any_taint = True
+        seg, ins, cut = [], set(), None
+
+    for ln in lines[1:]:
+        if ln.startswith('{"op":"clear"'):
+            flush()
+            seg.append(ln)
+            continue
+        if cut is None and ln.startswith('{"op":"Insert"'):
+            k = json.loads(ln)["k"]
+            kb = okeys[k - 1]
+            if any(pair(okeys[j - 1], kb) or pair(kb, okeys[j - 1]) for j in ins):
+                cut = len(seg)
+            ins.add(k)
+        seg.append(ln)
+    flush()
+    cf_, tf_ = trace_file + ".clean", trace_file + ".d2"
+    with open(cf_, "w") as f:
+        f.writelines(clean)
+    if not any_taint:
+        return cf_, None
+    with open(tf_, "w") as f:
+        f.writelines(tainted)
+    return cf_, tf_
 
 
 def match_known(prop, segment_lines):
